@@ -435,3 +435,8 @@ impl<'a> Message<'a> {
         )
     }
 }
+
+// verification hook (add-only, inert unless built by `cargo kani`, which sets --cfg kani)
+#[cfg(kani)]
+#[path = "/verif/kani/parser_harness.rs"]
+mod verif_kani;
